@@ -52,7 +52,7 @@ def fam_life(seed, i):
     if owning:
         kinds[rng.choice(names)] = "owning"
     keep = rng.random() < 0.3
-    main, handles = setup_main(rng, cfg, kinds, keep, entry=rng.choice(["builder", "plain"]))
+    main, handles = setup_main(rng, cfg, kinds, keep, entry=rng.choice(["builder", "builder", "plain", "default", "with"]))
     sc["clients"]["main"] = main
     w = {"send": 4, "call": 4, "ping": 1, "yield": 3, "clone": 2, "drop": 3, "stop": 2, "halt": 1, "try_stop": 1, "try_halt": 1,
          "await": 1.5, "await_ref": 1, "stopped": 2, "running": 1.5, "downgrade": 2, "upgrade": 2.5, "sender": 1, "caller": 1,
@@ -152,7 +152,7 @@ def fam_awaiters(seed, i):
     ncl = rng.randint(2, 4)
     names = [f"c{k+1}" for k in range(ncl)]
     kinds = {c: "addr" for c in names}
-    main, handles = setup_main(rng, cfg, kinds, rng.random() < 0.3, entry=rng.choice(["builder", "plain"]))
+    main, handles = setup_main(rng, cfg, kinds, rng.random() < 0.3, entry=rng.choice(["builder", "builder", "plain", "default", "with"]))
     sc["clients"]["main"] = main
     w = {"await_ref": 6, "await": 2, "clone": 4, "stopped": 2, "running": 2, "yield": 3, "drop": 1, "halt": 0.7, "downgrade": 0.5,
          "upgrade": 0.7, "try_halt": 0.5, "call": 1.5, "send": 1}
